@@ -30,6 +30,7 @@ type Obligation struct {
 	Trusted []string
 	Probes  []Probe
 	Replay  string
+	ExpectedToFail bool
 }
 
 func (o *Obligation) Name() string {
